@@ -47,6 +47,17 @@ def deploy_one(chk, rng, workdir, i):
     ncores = {xy: max(1, min(18, m[xy][Cores])) for xy in m}
     sim = SimMachine(m.width, m.height, STRUCT_TEXT, dead_chips=set(m.dead_chips),
                      dead_links={(x, y, int(l)) for (x, y, l) in m.dead_links}, ncores=ncores)
+    # chips differ in what they have left: memory, and router positions held by somebody else's application
+    for xy in sorted(sim.chips):
+        c = sim.chips[xy]
+        if rng.random() < 0.4:
+            c.sdram_next += 4 * rng.randint(1, 5000)
+        if rng.random() < 0.3:
+            c.sram_free -= 4 * rng.randint(1, 100)
+        if rng.random() < 0.3:
+            k = rng.choice((1, 3, 1000, 1015))
+            for pos in range(1, 1 + k):
+                c.rtr_owner[pos] = 20
     # some cores are busy with somebody else's application
     for xy in rng.sample(sorted(sim.chips), min(3, len(sim.chips))) if rng.random() < 0.6 else ():
         c = sim.chips[xy]
@@ -58,7 +69,8 @@ def deploy_one(chk, rng, workdir, i):
     binaries = []
     for k in range(rng.randint(1, 3)):
         path = os.path.join(workdir, "deploy-%d-%d.aplx" % (i, k))
-        data = bytes(bytearray([k + 1] * 4 + [rng.randrange(256) for _ in range(4 * rng.randint(1, 3))]))
+        nwords = rng.choice((1, 2, 3, 63, 64, 65, 127, 128))          # around multiples of the 256-byte data buffer
+        data = bytes(bytearray([k + 1] * 4 + [rng.randrange(256) for _ in range(4 * (nwords - 1))]))
         with open(path, "wb") as f:
             f.write(data)
         binaries.append((path, data))
@@ -80,8 +92,12 @@ def deploy_one(chk, rng, workdir, i):
                                                          route_kwargs=dict(radius=radius), **pk(chk.seed * 7919 + i))
         except c01.GUARDS as ex:
             return None, "pipeline ended by %s (the documented way to fail)" % type(ex).__name__
-        mc.load_routing_tables(tabs, app_id=APP_ID)
-        mc.load_application(amap, app_id=APP_ID)
+        failed = None
+        try:
+            mc.load_routing_tables(tabs, app_id=APP_ID)
+            mc.load_application(amap, app_id=APP_ID)
+        except Exception as ex:                # judged by the specification (DeploymentCompletes)
+            failed = type(ex).__name__
     finally:
         net.uninstall()
     # the fabric and the routers as the simulated machine has them
@@ -106,6 +122,8 @@ def deploy_one(chk, rng, workdir, i):
             for core in range(sl.start, sl.stop):
                 want[(x, y, core)] = list(bytearray(data_of[path]))
     evs = tr["ev"][:-1]
+    if failed:
+        evs.insert(0, ["failed", failed])
     for key in sorted(after):
         st, app, img = after[key]
         if key in want:
